@@ -27,6 +27,8 @@ def variants(rng, k):
 
 def judge(case):
     from .. import realrun, realsyn
+    from .. import values
+    values.EXTRA_ATOMS = dict(enumerate(case.get("atoms", [])))
     s, out = case["s"], case["out"]
     rng = random.Random(case["seed"])
     canon = absyn.render(s, random.Random(case["seed"]))
@@ -57,6 +59,12 @@ def run(rep, tier, seed):
     rng = random.Random(seed)
     if tier == "quick":
         cases = rng.sample(cases, min(len(cases), 500))
+    # random scripts (TLC's Trace_Load computed the program each denotes)
+    from .. import randcases
+    nr = 150 if tier == "quick" else 1500
+    rc = randcases.build(seed + 31, nr)
+    randcases.judge(rep, rc, "Trace_Load (oracle for %d random scripts whose layouts are varied)" % nr)
+    cases += [dict(s=c["s"], out=c["out"], atoms=c["atoms"]) for c in rc if c["out"]["k"] == "ok"]
     for i, c in enumerate(cases):
         c["seed"] = seed * 29 + i
         c["nvar"] = 6 if tier == "quick" else 14
